@@ -21,9 +21,25 @@ members consumed.  After every event
     the twins' states in insertion order (ConfirmedElection model carries its
     counters across calls and across reset());
   * the ensemble's own counters count updates and restart only on reset().
+
+Round-3 families (EXTENDING.md), every one an additional set of configurations whose id starts with
+``<S|B>-x-<family>`` (the oracle is unchanged):
+  factory    selectors made by ONE loop of default-argument lambdas (shared code object, no closure),
+             functools.partial objects (no __code__), instances of one callable class, bound methods
+  viewcopy   selectors that return views of the caller's data (slices, 1-D column views, .iloc) or explicit copies
+  overlap    overlapping / identical / reversed-order column subsets
+  somesel    a selector for only some members; ensembles constructed without the column_selectors argument
+  dfnamed    DataFrame input with .loc / .filter / Series / to_numpy() selectors (named columns)
+  sameclass  the same detector class twice (identical and different parameters)
+  single     ensembles with a single member under every election type
+  cref       BatchEnsemble.set_reference mid-stream under ConfirmedElection with longer waits
+  labels     y_true / y_pred as bools, numpy ints, 1-element arrays / lists (stream) and label arrays (batch)
+  shared     two ensembles sharing ONE (stateless) election object, driven with different data
 """
 import copy
+import functools
 import hashlib
+import os
 
 import numpy as np
 import pandas as pd
@@ -58,7 +74,20 @@ FACTORY = {
     "nndvi": lambda: NNDVI(k_nn=2, sampling_times=8, alpha=0.05),
     "cdbd": lambda: CDBD(detect_batch=2, statistic="tstat", significance=0.2, subsets=2),
 }
-STOCHASTIC = {"kdq", "lfr", "kdqb", "hdddm", "hdddm2", "nndvi", "cdbd"}
+# round 3: the same class again -- "_b" = identical parameters, "2" = other parameters
+FACTORY.update({
+    "adwin_b": FACTORY["adwin"],
+    "adwin2": lambda: ADWIN(delta=0.5, max_buckets=1, new_sample_thresh=2, window_size_thresh=2, subwindow_size_thresh=1),
+    "ddm_b": FACTORY["ddm"],
+    "ddm2": lambda: DDM(n_threshold=1, warning_scale=1, drift_scale=2),
+    "ph_b": FACTORY["ph"],
+    "ph2": lambda: PageHinkley(delta=0.0, threshold=0.5, burn_in=1, direction="negative"),
+    "kdq_b": FACTORY["kdq"],
+    "kdqb_b": FACTORY["kdqb"],
+    "cdbd2": lambda: CDBD(detect_batch=1, statistic="stdev", significance=0.5, subsets=2),
+    "hdddm_b": FACTORY["hdddm"],
+})
+STOCHASTIC = {"kdq", "lfr", "kdqb", "hdddm", "hdddm2", "nndvi", "cdbd", "kdq_b", "kdqb_b", "cdbd2", "hdddm_b"}
 
 # stream menu: (row of three features, y_true, y_pred)
 ROWS = [
@@ -91,6 +120,129 @@ def make_selector(container, cols):
         names = [COLS[c] for c in cols]
         return lambda X: X[names]
     return lambda X: X[:, cols]
+
+
+# ---------------------------------------------------------------- round 3: selector styles
+def _pick_cols(X, cols=None, names=None):
+    return X[names] if names is not None else X[:, cols]
+
+
+class ColumnPicker:
+    """One class, many instances: a selector that is an object, and one whose bound method is the selector."""
+
+    def __init__(self, container, cols):
+        self.cols = list(cols)
+        self.names = [COLS[c] for c in cols] if container == "dataframe" else None
+
+    def __call__(self, X):
+        return X[self.names] if self.names is not None else X[:, self.cols]
+
+    def pick(self, X):
+        return self(X)
+
+
+def _span(cols):
+    a, b = cols[0], cols[-1] + 1
+    if list(cols) != list(range(a, b)):
+        raise HarnessError("HARNESS-CRASH: view selectors need a contiguous ascending column range, got %r" % (cols,))
+    return a, b
+
+
+def build_selectors(cfg):
+    """-> {member key: selector callable} for the members that have one.  cfg["styles"] maps member keys to a style
+    (default "closure" = the pre-round-3 make_selector)."""
+    cont = cfg["container"]
+    styles = cfg.get("styles") or {}
+    out = {}
+    items = [(k, cols) for k, cols in cfg["selectors"].items() if cols is not None]
+    # all "loop" selectors come out of ONE loop: same code object, no closure cells, only __defaults__ differ
+    for k, cols in items:
+        if styles.get(k) == "loop":
+            if cont == "dataframe":
+                out[k] = lambda X, _names=[COLS[c] for c in cols]: X[_names]
+            else:
+                out[k] = lambda X, _cols=list(cols): X[:, _cols]
+    for k, cols in items:
+        st = styles.get(k, "closure")
+        cols = list(cols)
+        names = [COLS[c] for c in cols]
+        if st == "loop":
+            continue
+        if st == "closure":
+            out[k] = make_selector(cont, cols)
+        elif st == "partial":
+            out[k] = functools.partial(_pick_cols, names=names) if cont == "dataframe" else functools.partial(_pick_cols, cols=cols)
+        elif st == "object":
+            out[k] = ColumnPicker(cont, cols)
+        elif st == "method":
+            out[k] = ColumnPicker(cont, cols).pick
+        elif st == "copy":
+            out[k] = (lambda X, n=names: X[n].copy()) if cont == "dataframe" else (lambda X, c=cols: X[:, c].copy())
+        elif st == "view":  # ndarray: basic slice = a view of the caller's array; DataFrame: .iloc slice
+            a, b = _span(cols)
+            out[k] = (lambda X, a=a, b=b: X.iloc[:, a:b]) if cont == "dataframe" else (lambda X, a=a, b=b: X[:, a:b])
+        elif st == "view1d":  # one column as a 1-D view / a Series
+            (c,) = cols
+            out[k] = (lambda X, n=COLS[c]: X[n]) if cont == "dataframe" else (lambda X, c=c: X[:, c])
+        elif st == "loc":
+            out[k] = lambda X, n=names: X.loc[:, n]
+        elif st == "filter":
+            out[k] = lambda X, n=names: X.filter(items=n)
+        elif st == "to_numpy":
+            out[k] = lambda X, n=names: X[n].to_numpy()
+        else:
+            raise HarnessError("HARNESS-CRASH: unknown selector style %r" % st)
+    return out
+
+
+def twin_input(cfg, key, rows):
+    """What member ``key`` must have been handed: built by the harness from the raw menu rows, in the container kind
+    the member's selector style produces -- never through the selector objects given to the ensemble."""
+    cont = cfg["container"]
+    cols = cfg["selectors"].get(key)
+    if cols is None:
+        return make_data(rows, cont)
+    st = (cfg.get("styles") or {}).get(key, "closure")
+    cols = list(cols)
+    if st == "view":
+        a, b = _span(cols)
+        full = make_data(rows, cont)
+        return full.iloc[:, a:b] if cont == "dataframe" else full[:, a:b]
+    if st == "view1d":
+        (c,) = cols
+        full = make_data(rows, cont)
+        return full[COLS[c]] if cont == "dataframe" else full[:, c]
+    if st == "to_numpy":
+        return make_data(rows, "ndarray", cols)
+    return make_data(rows, cont, cols)
+
+
+# ---------------------------------------------------------------- round 3: label styles
+def make_labels(style, y, p, nrows):
+    """(y_true, y_pred) for one call; a fresh pair of objects on every call."""
+    if style in (None, "int"):
+        return y, p
+    if y is None:  # batch menu: labels are unused by every batch member, any array will do
+        if style == "batch_arrays":
+            return np.arange(nrows) % 2, np.ones(nrows, dtype=int)
+        if style == "batch_bools":
+            return np.arange(nrows) % 2 == 0, [bool(i % 3) for i in range(nrows)]
+        if style == "batch_columns":
+            return (np.arange(nrows) % 3).reshape(-1, 1), pd.Series(np.zeros(nrows))
+        raise HarnessError("HARNESS-CRASH: unknown batch label style %r" % style)
+    if style == "bool":
+        return bool(y), bool(p)
+    if style == "npint":
+        return np.int64(y), np.int8(p)
+    if style == "npbool":
+        return np.bool_(y), np.bool_(p)
+    if style == "array1":
+        return np.array([y]), np.array([p])
+    if style == "list1":
+        return [y], [p]
+    if style == "array0d":
+        return np.array(y), np.array([[p]])
+    raise HarnessError("HARNESS-CRASH: unknown label style %r" % style)
 
 
 # ---------------------------------------------------------------- RNG shim
@@ -167,13 +319,23 @@ class EnsembleSys(System):
         for k in members:
             shims += install_shims(members[k], cfg["id"], k, self.batch)
             shims += install_shims(twins[k], cfg["id"], k, self.batch)
-        selectors = {
-            k: make_selector(cfg["container"], cols) for k, cols in cfg["selectors"].items() if cols is not None
-        }
+        selectors = build_selectors(cfg)
         el = make_election(cfg["election"]["kind"], cfg["election"]["params"])
         cls = BatchEnsemble if self.batch else StreamingEnsemble
-        ens = cls(detectors=members, election=el, column_selectors=selectors)
-        return {
+        if cfg.get("omit_selectors"):
+            if selectors:
+                raise HarnessError("HARNESS-CRASH: omit_selectors with selectors %r" % (cfg["selectors"],))
+            ens = cls(detectors=members, election=el)  # the documented default: no column_selectors argument at all
+        else:
+            ens = cls(detectors=members, election=el, column_selectors=selectors)
+        extra = {}
+        if cfg.get("partner"):
+            # a second ensemble over its own members of the same kinds, sharing the (stateless) election OBJECT
+            if cfg["election"]["kind"] == "Confirmed" or set(cfg["members"]) & STOCHASTIC:
+                raise HarnessError("HARNESS-CRASH: partner ensembles are for stateless elections and deterministic members")
+            extra["ens_b"] = cls(detectors={k: FACTORY[k]() for k in cfg["members"]}, election=el, column_selectors=build_selectors(cfg))
+            extra["model_b"] = M.make_model(cfg["election"]["kind"], cfg["election"]["params"])
+        return dict(extra, **{
             "ens": ens,
             "twins": twins,
             "model": M.make_model(cfg["election"]["kind"], cfg["election"]["params"]),
@@ -183,7 +345,7 @@ class EnsembleSys(System):
             "prev": {k: None for k in members},
             "key": None,
             "digests": {k: canon(t) for k, t in twins.items()},
-        }
+        })
 
     def alphabet(self, cfg, state, pos):
         if self.batch:
@@ -311,6 +473,9 @@ class EnsembleSys(System):
         state["digests"] = digests
         h.update(canon(ens.election))
         h.update(canon([state["model"].canon(), ens.drift_state, state["updates"], state["since"]]))
+        if "ens_b" in state:
+            b = state["ens_b"]
+            h.update(canon([list(b.detectors.values()), b.drift_state, int(b.total_samples), int(b.samples_since_reset)]))
         state["key"] = h.digest()
 
     # -- one event
@@ -328,12 +493,14 @@ class EnsembleSys(System):
                 r, y, p = ROWS[ev[1]]
                 rows = [r]
             X = make_data(rows, cont)
-            ok = self._call_both(
-                cfg, state, ev, pos, ctx,
-                lambda e: e.update(X, y, p),
-                lambda k, tw: tw.update(X=make_data(rows, cont, cfg["selectors"].get(k)), y_true=y, y_pred=p),
-                "update",
-            )
+            lab = cfg.get("labels")
+            ey, ep = make_labels(lab, y, p, len(rows))
+
+            def twin_update(k, tw):
+                ty, tp = make_labels(lab, y, p, len(rows))
+                tw.update(X=twin_input(cfg, k, rows), y_true=ty, y_pred=tp)
+
+            ok = self._call_both(cfg, state, ev, pos, ctx, lambda e: e.update(X, ey, ep), twin_update, "update")
             if not ok:
                 return {"raised": True}
             state["updates"] += 1
@@ -361,9 +528,12 @@ class EnsembleSys(System):
                 )
             tot, since = self._own_counters(state, "update")
             self._bookkeeping(cfg, state, ctx, states, got, exp)
+            obs = {"verdict": got, "members": states, "recs": recs, "total": tot, "since": since}
+            if "ens_b" in state:
+                obs["partner"] = self._partner_update(cfg, state, ev, pos, ctx, digests, got)
             state["prev"] = dict(states)
             self._finish(state, digests)
-            return {"verdict": got, "members": states, "recs": recs, "total": tot, "since": since}
+            return obs
 
         if kind == "reset":
             before = state["digests"]
@@ -402,14 +572,22 @@ class EnsembleSys(System):
             rows = BATCHES[ev[1]]
             X = make_data(rows, cont)
             before = state["digests"]
-            ok = self._call_both(
-                cfg, state, ev, pos, ctx,
-                lambda e: e.set_reference(X),
-                lambda k, tw: tw.set_reference(X=make_data(rows, cont, cfg["selectors"].get(k)), y_true=None, y_pred=None),
-                "set_reference",
-            )
+            lab = cfg.get("labels")
+            if lab in (None, "int"):
+                on_ens = lambda e: e.set_reference(X)  # noqa: E731
+            else:
+                ey, ep = make_labels(lab, None, None, len(rows))
+                on_ens = lambda e: e.set_reference(X, ey, ep)  # noqa: E731
+
+            def twin_ref(k, tw):
+                ty, tp = make_labels(lab, None, None, len(rows))
+                tw.set_reference(X=twin_input(cfg, k, rows), y_true=ty, y_pred=tp)
+
+            ok = self._call_both(cfg, state, ev, pos, ctx, on_ens, twin_ref, "set_reference")
             if not ok:
                 return {"raised": True}
+            if getattr(ens.election, "wait_period_counters", None) and any(ens.election.wait_period_counters):
+                ctx.count("set_reference_while_confirmed_members_are_waiting")
             digests = self._compare_members(cfg, state, ev, "set_reference")
             states, recs = self._views(state)
             tot, since = self._own_counters(state, "set_reference")
@@ -427,9 +605,54 @@ class EnsembleSys(System):
 
         raise HarnessError("HARNESS-CRASH: unknown event %r" % (ev,))
 
+    def _partner_update(self, cfg, state, ev, pos, ctx, digests, verdict_a):
+        """The second ensemble (sharing the election object) is updated with ANOTHER row; its verdict must be the rule
+        applied to ITS members, and the first ensemble must not notice."""
+        ens, b = state["ens"], state["ens_b"]
+        r, y, p = ROWS[(ev[1] + 1) % len(ROWS)]
+        lab = cfg.get("labels")
+        by, bp = make_labels(lab, y, p, 1)
+        try:
+            b.update(make_data([r], cfg["container"]), by, bp)
+        except Exception as e:  # noqa: BLE001
+            raise Violation("partner-exception", "%s: the second ensemble sharing the election raised %r" % (self.name, e),
+                            expected="accepted", observed=repr(e))
+        bstates = {k: d.drift_state for k, d in b.detectors.items()}
+        exp = state["model_b"].step(list(bstates.values()))["verdict"]
+        if b.drift_state != exp:
+            raise Violation(
+                "shared-election-verdict",
+                "%s: second ensemble sharing the %s object reports %r, the rule applied to its own members %r gives %r"
+                % (self.name, cfg["election"]["kind"], b.drift_state, bstates, exp),
+                expected=exp, observed=b.drift_state, sig="shared-election-verdict:%s" % cfg["election"]["kind"],
+            )
+        if ens.drift_state != verdict_a:
+            raise Violation(
+                "shared-election-crosstalk",
+                "%s: drift_state of the first ensemble changed from %r to %r when the second one was updated"
+                % (self.name, verdict_a, ens.drift_state), expected=verdict_a, observed=ens.drift_state,
+            )
+        for k, m in ens.detectors.items():
+            if canon(m) != digests[k]:
+                raise Violation("shared-election-crosstalk", "%s: member %r of the first ensemble changed when the second "
+                                "ensemble was updated" % (self.name, k), expected="unchanged", observed="changed")
+        ctx.count("shared_election_partner_updates")
+        if exp != verdict_a:
+            ctx.count("shared_election_ensembles_disagree")
+        if exp == "drift":
+            ctx.count("shared_election_partner_drift")
+        return {"verdict": b.drift_state, "members": bstates}
+
     def _bookkeeping(self, cfg, state, ctx, states, got, exp):
         ekind = cfg["election"]["kind"]
         vals = list(states.values())
+        fam = cfg.get("family")
+        if fam:
+            ctx.count("family_%s_updates" % fam)
+            if got is not None:
+                ctx.count("family_%s_ensemble_alarms" % fam)
+            if any(v is not None for v in vals):
+                ctx.count("family_%s_member_alarms" % fam)
         ctx.count("verdict_%s_%s" % (ekind, TAG[got]))
         if got is not None:
             ctx.mark()
@@ -561,44 +784,206 @@ def _cheap(cfg):
     return not (set(cfg["members"]) & STOCHASTIC)
 
 
+# ---------------------------------------------------------------- round-3 configurations
+SM = ("SimpleMajority", {})
+MA1 = ("MinimumApproval", {"approvals_needed": 1})
+MA2 = ("MinimumApproval", {"approvals_needed": 2})
+OA10 = ("OrderedApproval", {"approvals_needed": 1, "confirmations_needed": 0})
+OA11 = ("OrderedApproval", {"approvals_needed": 1, "confirmations_needed": 1})
+OA20 = ("OrderedApproval", {"approvals_needed": 2, "confirmations_needed": 0})
+CE11 = ("Confirmed", {"sensitivity": 1, "wait_time": 1})
+CE12 = ("Confirmed", {"sensitivity": 1, "wait_time": 2})
+CE13 = ("Confirmed", {"sensitivity": 1, "wait_time": 3})
+CE21 = ("Confirmed", {"sensitivity": 2, "wait_time": 1})
+CE22 = ("Confirmed", {"sensitivity": 2, "wait_time": 2})
+CE23 = ("Confirmed", {"sensitivity": 2, "wait_time": 3})
+ND, DA = "ndarray", "dataframe"
+
+
+def _x(system, family, tag, members, selectors, election, container, depth=None, **kw):
+    """One round-3 configuration.  ``selectors``: {key: cols}; members without an entry have no selector."""
+    cfg = {
+        "id": "%s-x-%s-%s-%s%s" % (system[0], family, tag, election[0][:2], container[:2]),
+        "family": family,
+        "members": list(members),
+        "selectors": {k: selectors.get(k) for k in members},
+        "election": {"kind": election[0], "params": election[1]},
+        "container": container,
+    }
+    if depth is not None:
+        cfg["depth_delta"] = depth  # relative to the family default depth
+    cfg.update(kw)
+    return cfg
+
+
+def _all(members, style):
+    return {k: style for k in members}
+
+
+def extra_configs(system):
+    S, B = "Stream", "Batch"
+    m3 = ["adwin", "ph", "ddm"]
+    s3 = {"adwin": [0], "ph": [1], "ddm": [0, 1]}
+    if system == S:
+        out = [
+            # ---- factory: one loop of default-argument lambdas / partial objects / callable objects / bound methods
+            _x(S, "factory", "loop", m3, s3, SM, ND, 1, styles=_all(m3, "loop")),
+            _x(S, "factory", "loop", m3, s3, CE22, DA, styles=_all(m3, "loop")),
+            _x(S, "factory", "partial", m3, s3, MA1, ND, styles=_all(m3, "partial")),
+            _x(S, "factory", "partial", m3, s3, OA11, DA, styles=_all(m3, "partial")),
+            _x(S, "factory", "object", m3, s3, CE11, ND, styles=_all(m3, "object")),
+            _x(S, "factory", "object", m3, s3, SM, DA, styles=_all(m3, "object")),
+            _x(S, "factory", "method", m3, s3, OA20, ND, styles=_all(m3, "method")),
+            _x(S, "factory", "method", m3, s3, MA2, DA, styles=_all(m3, "method")),
+            _x(S, "factory", "loopkdq", ["kdq", "adwin", "ph"], {"kdq": [0, 1], "adwin": [0], "ph": [1]}, MA1, ND,
+               styles=_all(["kdq", "adwin", "ph"], "loop")),
+            _x(S, "factory", "mixed", ["kdq", "adwin", "ddm"], {"kdq": [1, 2], "adwin": [1], "ddm": [0]}, SM, DA,
+               styles={"kdq": "partial", "adwin": "object", "ddm": "loop"}),
+            # ---- viewcopy: views of the caller's row (the whole-row member comes after the view members) / explicit copies
+            _x(S, "viewcopy", "view", ["adwin", "ph", "ddm", "kdq"], {"adwin": [0], "ph": [1], "ddm": [1, 2]}, MA1, ND,
+               styles={"adwin": "view", "ph": "view1d", "ddm": "view"}),
+            _x(S, "viewcopy", "view", ["adwin", "kdq", "ph"], {"adwin": [0], "kdq": [0, 1], "ph": [2]}, CE22, DA,
+               styles={"adwin": "view1d", "kdq": "view", "ph": "view"}),
+            _x(S, "viewcopy", "copy", m3, s3, OA11, ND, styles=_all(m3, "copy")),
+            _x(S, "viewcopy", "copy", m3, s3, MA1, DA, styles=_all(m3, "copy")),
+            # ---- overlap: identical, overlapping and reversed-order subsets
+            _x(S, "overlap", "rev", ["adwin", "ph", "kdq", "ddm"], {"adwin": [1], "ph": [1], "kdq": [1, 0], "ddm": [2, 1, 0]}, MA2, ND),
+            _x(S, "overlap", "twokdq", ["kdq", "kdq_b", "adwin"], {"kdq": [0, 1], "kdq_b": [2, 1], "adwin": [1]}, OA11, DA),
+            # ---- somesel: a selector for only some members / no column_selectors argument at all
+            _x(S, "somesel", "one", ["kdq", "ph", "ddm"], {"ph": [2]}, CE11, ND),
+            _x(S, "somesel", "omit", ["kdq", "ddm"], {}, SM, ND, omit_selectors=True),
+            _x(S, "somesel", "omit", ["ddm", "lfr"], {}, MA1, DA, omit_selectors=True),
+            # ---- dfnamed: named columns through .loc / .filter / a Series / to_numpy()
+            _x(S, "dfnamed", "loc", ["adwin", "kdq", "ddm"], {"adwin": [1], "kdq": [0, 2], "ddm": [1]}, MA1, DA,
+               styles={"adwin": "view1d", "kdq": "loc", "ddm": "filter"}),
+            _x(S, "dfnamed", "tonumpy", ["ph", "kdq", "adwin"], {"ph": [1], "kdq": [0, 1], "adwin": [2]}, CE22, DA,
+               styles={"ph": "to_numpy", "kdq": "to_numpy", "adwin": "filter"}),
+            # ---- sameclass: one class twice, identical ("_b") and different ("2") parameters
+            _x(S, "sameclass", "ddm", ["ddm", "ddm2", "ddm_b"], {}, SM, ND),
+            _x(S, "sameclass", "adwin", ["adwin", "adwin_b", "adwin2"], {"adwin": [0], "adwin_b": [1], "adwin2": [0]}, CE22, ND),
+            _x(S, "sameclass", "phkdq", ["ph", "ph2", "kdq", "kdq_b"], {"ph": [0], "ph2": [0], "kdq": [0, 1], "kdq_b": [1, 2]}, OA11, DA),
+            # ---- single: one member, every election type
+            _x(S, "single", "ddm", ["ddm"], {}, SM, ND, 1),
+            _x(S, "single", "ddm", ["ddm"], {}, CE12, DA, 1),
+            _x(S, "single", "adwin", ["adwin"], {"adwin": [0]}, MA1, DA, 1),
+            _x(S, "single", "adwin", ["adwin"], {"adwin": [0]}, MA2, ND, 1),
+            _x(S, "single", "ph", ["ph"], {"ph": [1]}, OA10, ND, 1),
+            _x(S, "single", "ph", ["ph"], {"ph": [1]}, CE21, DA, 1),
+            _x(S, "single", "kdq", ["kdq"], {}, CE11, ND),
+            _x(S, "single", "lfr", ["lfr"], {}, SM, DA),
+            # ---- labels: y_true / y_pred in other legal shapes (LinearFourRates takes 0/1 int-likes only: C16)
+            _x(S, "labels", "bool", ["ddm", "lfr", "adwin"], {"adwin": [0]}, MA1, ND, labels="bool"),
+            _x(S, "labels", "npint", ["ddm", "ph", "adwin2"], {"ph": [0], "adwin2": [1]}, SM, DA, labels="npint"),
+            _x(S, "labels", "array1", ["ddm", "lfr"], {}, CE11, ND, labels="array1"),
+            _x(S, "labels", "list1", ["ddm", "ddm2", "ph"], {"ph": [0]}, OA11, DA, labels="list1"),
+            _x(S, "labels", "array0d", ["lfr", "ddm"], {}, MA2, ND, labels="array0d"),
+            _x(S, "labels", "npbool", ["ddm2", "adwin", "ph"], {"adwin": [1], "ph": [0]}, CE22, ND, labels="npbool"),
+            # ---- shared: two ensembles share one stateless election object
+            _x(S, "shared", "sm", m3, {"adwin": [0], "ph": [1]}, SM, ND, 1, partner=True),
+            _x(S, "shared", "ma", m3, {"adwin": [0], "ph": [1]}, MA2, DA, partner=True),
+            _x(S, "shared", "oa", m3, {"adwin": [0], "ph": [1]}, OA11, ND, partner=True),
+        ]
+    else:
+        out = [
+            _x(B, "factory", "loop", ["hdddm", "cdbd", "kdqb"], {"hdddm": [0, 1], "cdbd": [1], "kdqb": [1, 2]}, MA1, ND,
+               styles=_all(["hdddm", "cdbd", "kdqb"], "loop")),
+            _x(B, "factory", "objpart", ["hdddm", "cdbd"], {"hdddm": [0, 2], "cdbd": [1]}, SM, DA,
+               styles={"hdddm": "object", "cdbd": "partial"}),
+            _x(B, "viewcopy", "view", ["cdbd", "hdddm", "nndvi"], {"cdbd": [1], "hdddm": [0, 1]}, MA1, ND,
+               styles={"cdbd": "view1d", "hdddm": "view"}),
+            _x(B, "viewcopy", "view", ["cdbd", "kdqb"], {"cdbd": [1]}, OA11, DA, styles={"cdbd": "view"}),
+            _x(B, "overlap", "rev", ["hdddm", "kdqb", "nndvi"], {"hdddm": [1, 0], "kdqb": [0, 1], "nndvi": [1, 2]}, MA2, ND),
+            _x(B, "somesel", "omit", ["kdqb", "hdddm"], {}, SM, DA, omit_selectors=True),
+            _x(B, "dfnamed", "series", ["cdbd", "hdddm"], {"cdbd": [1], "hdddm": [0, 2]}, MA1, DA,
+               styles={"cdbd": "view1d", "hdddm": "to_numpy"}),
+            _x(B, "sameclass", "two", ["cdbd", "cdbd2", "kdqb", "kdqb_b"], {"cdbd": [0], "cdbd2": [1], "kdqb": [0, 1]}, OA11, ND),
+            _x(B, "single", "hdddm", ["hdddm"], {}, SM, ND, 1),
+            _x(B, "single", "nndvi", ["nndvi"], {}, CE11, DA, 1),
+            # ---- cref: set_reference at every later position while ConfirmedElection members are waiting
+            _x(B, "cref", "two", ["kdqb", "hdddm"], {"hdddm": [0]}, CE23, ND, 1),
+            _x(B, "cref", "hdm", ["hdddm2", "cdbd"], {"cdbd": [1]}, CE12, DA, 1),
+            _x(B, "cref", "single", ["hdddm"], {}, CE13, ND, 1),
+            _x(B, "labels", "arrays", ["hdddm", "cdbd"], {"cdbd": [1]}, MA1, ND, labels="batch_arrays"),
+            _x(B, "labels", "bools", ["kdqb", "nndvi"], {}, SM, DA, labels="batch_bools"),
+            _x(B, "labels", "columns", ["hdddm2", "cdbd2"], {"cdbd2": [0]}, CE11, ND, labels="batch_columns"),
+        ]
+    ids = [c["id"] for c in out]
+    if len(set(ids)) != len(ids):
+        raise HarnessError("HARNESS-CRASH: duplicate round-3 configuration ids %r" % sorted(i for i in ids if ids.count(i) > 1))
+    return out
+
+
+FAMILIES = ("factory", "viewcopy", "overlap", "somesel", "dfnamed", "sameclass", "single", "cref", "labels", "shared")
+# family default depths (batch depths include the initial set_reference); cheap = no stochastic member
+XDEPTH = {
+    "quick": {"stream_cheap": 5, "stream": 5, "batch": 4},
+    "thorough": {"stream_cheap": 7, "stream": 6, "batch": 5},
+}
+
+
+def xdepth(tier, system, cfg):
+    d = XDEPTH[tier]
+    base = d["batch"] if system == "Batch" else (d["stream_cheap"] if _cheap(cfg) else d["stream"])
+    return base + cfg.get("depth_delta", 0)
+
+
 COST = {"adwin": 0.1, "ddm": 0.05, "ph": 0.05, "kdq": 3.0, "lfr": 2.0, "kdqb": 6.0, "hdddm": 3.0, "hdddm2": 2.0, "nndvi": 2.0, "cdbd": 1.5}
+for _k in list(FACTORY):
+    COST.setdefault(_k, COST.get(_k.rstrip("2").replace("_b", ""), 1.0))
+ROUND3 = os.environ.get("VERIF_ROUND3", "")  # "off" / "only": pre-round-3 tasks / round-3 families alone (mutant triage)
+
+
+def _stream_tasks(cfg, depth):
+    out = []
+    split = 1 if depth <= 5 else 2
+    firsts = [["u", 0], ["u", 1], ["u", 2], ["reset"]]
+    prefixes = [[a] for a in firsts] if split == 1 else [[a, b] for a in firsts for b in firsts]
+    for pre in prefixes:
+        out.append(
+            {
+                "system": "Stream",
+                "cfg": cfg,
+                "prefix": pre,
+                "depth": depth - split,
+                "label": "Stream|%s|%s" % (cfg["id"], "".join(str(e[1]) if len(e) > 1 else "r" for e in pre)),
+                "cost": sum(COST[m] for m in cfg["members"]) * 4 ** (depth - split),
+                "validate_every": 97,
+            }
+        )
+    return out
+
+
+def _batch_tasks(cfg, depth):
+    out = []
+    later = [["u", 0], ["u", 1], ["u", 2], ["reset"], ["ref", LATER_REF]]
+    for r in FIRST_REFS:
+        for b in later:
+            out.append(
+                {
+                    "system": "Batch",
+                    "cfg": cfg,
+                    "prefix": [["ref", r], b],
+                    "depth": depth - 2,
+                    "label": "Batch|%s|%d%s" % (cfg["id"], r, b[0][0] + str(b[1]) if len(b) > 1 else "r"),
+                    "cost": sum(COST[m] for m in cfg["members"]) * 5 ** (depth - 2),
+                    "validate_every": 53,
+                }
+            )
+    return out
 
 
 def tasks(tier, seed):
     out = []
-    for cfg in configs(tier, "Stream"):
-        depth = depth_of(tier, "Stream", cfg)
-        split = 1 if depth <= 5 else 2
-        firsts = [["u", 0], ["u", 1], ["u", 2], ["reset"]]
-        prefixes = [[a] for a in firsts] if split == 1 else [[a, b] for a in firsts for b in firsts]
-        for pre in prefixes:
-            out.append(
-                {
-                    "system": "Stream",
-                    "cfg": cfg,
-                    "prefix": pre,
-                    "depth": depth - split,
-                    "label": "Stream|%s|%s" % (cfg["id"], "".join(str(e[1]) if len(e) > 1 else "r" for e in pre)),
-                    "cost": sum(COST[m] for m in cfg["members"]) * 4 ** (depth - split),
-                    "validate_every": 97,
-                }
-            )
-    for cfg in configs(tier, "Batch"):
-        depth = depth_of(tier, "Batch", cfg)
-        later = [["u", 0], ["u", 1], ["u", 2], ["reset"], ["ref", LATER_REF]]
-        for r in FIRST_REFS:
-            for b in later:
-                out.append(
-                    {
-                        "system": "Batch",
-                        "cfg": cfg,
-                        "prefix": [["ref", r], b],
-                        "depth": depth - 2,
-                        "label": "Batch|%s|%d%s" % (cfg["id"], r, b[0][0] + str(b[1]) if len(b) > 1 else "r"),
-                        "cost": sum(COST[m] for m in cfg["members"]) * 5 ** (depth - 2),
-                        "validate_every": 53,
-                    }
-                )
+    if ROUND3 != "only":
+        for cfg in configs(tier, "Stream"):
+            out += _stream_tasks(cfg, depth_of(tier, "Stream", cfg))
+        for cfg in configs(tier, "Batch"):
+            out += _batch_tasks(cfg, depth_of(tier, "Batch", cfg))
+    if ROUND3 != "off":
+        for cfg in extra_configs("Stream"):
+            out += _stream_tasks(cfg, xdepth(tier, "Stream", cfg))
+        for cfg in extra_configs("Batch"):
+            out += _batch_tasks(cfg, xdepth(tier, "Batch", cfg))
     return out
 
 
